@@ -7,23 +7,6 @@ use std::convert::TryFrom;
 
 // ---------- generation (text) ----------
 
-fn gen_coord(rng: &mut Rng, k: i64) -> Coord<f64> {
-    if rng.chance(1, 6) { wild_coord(rng) } else { grid_coord(rng, k) }
-}
-
-fn gen_ring(rng: &mut Rng, k: i64) -> Vec<Coord<f64>> {
-    let n = *rng.pick(&[0usize, 1, 2, 3, 3, 4, 4, 5, 6]);
-    let mut r: Vec<Coord<f64>> = (0..n).map(|_| gen_coord(rng, k)).collect();
-    if n > 0 && rng.chance(1, 2) {
-        let f = r[0];
-        r.push(f); // already closed
-        if rng.chance(1, 4) {
-            r.push(f); // doubly closed
-        }
-    }
-    r
-}
-
 fn gen_edit(rng: &mut Rng, k: i64) -> String {
     match rng.below(9) {
         0 | 1 => format!("push {}", proto::coord(gen_coord(rng, k))),
@@ -105,27 +88,6 @@ pub fn gen(rng: &mut Rng, _index: u64) -> String {
         }
         _ => format!("C18.conv {}", proto::geom(&gen_any_geom(rng, k, 2))),
     }
-}
-
-pub fn gen_any_geom(rng: &mut Rng, k: i64, depth: u32) -> Geometry<f64> {
-    let top = if depth == 0 { 9 } else { 10 };
-    match rng.below(top) {
-        0 => Geometry::Point(Point(gen_coord(rng, k))),
-        1 => Geometry::Line(Line::new(gen_coord(rng, k), gen_coord(rng, k))),
-        2 => Geometry::LineString(LineString(gen_ring(rng, k))),
-        3 => Geometry::Polygon(gen_poly(rng, k)),
-        4 => Geometry::MultiPoint(MultiPoint(gen_ring(rng, k).into_iter().map(Point).collect())),
-        5 => Geometry::MultiLineString(MultiLineString((0..rng.below(3)).map(|_| LineString(gen_ring(rng, k))).collect())),
-        6 => Geometry::MultiPolygon(MultiPolygon((0..rng.below(3)).map(|_| gen_poly(rng, k)).collect())),
-        7 => Geometry::Rect(Rect::new(gen_coord(rng, k), gen_coord(rng, k))),
-        8 => Geometry::Triangle(Triangle(gen_coord(rng, k), gen_coord(rng, k), gen_coord(rng, k))),
-        _ => Geometry::GeometryCollection(GeometryCollection((0..rng.below(4)).map(|_| gen_any_geom(rng, k, depth - 1)).collect())),
-    }
-}
-
-pub fn gen_poly(rng: &mut Rng, k: i64) -> Polygon<f64> {
-    let ni = *rng.pick(&[0usize, 0, 1, 2]);
-    Polygon::new(LineString(gen_ring(rng, k)), (0..ni).map(|_| LineString(gen_ring(rng, k))).collect())
 }
 
 // ---------- evaluation (runs the real code) ----------
